@@ -12,7 +12,7 @@ for d in seeded/*/; do
     ok=0; for p in $sel; do case "$id" in $p*) ok=1;; esac; done; [ $ok = 1 ] || continue
   fi
   prop=$(python3 -c "import json;print(json.load(open('$d/meta.json'))['property'])")
-  out=$(tools/try_seeded.sh $d/patch.diff $prop 2>&1)
+  out=$(tools/try_seeded.sh /verif/${d}patch.diff $prop 2>&1)
   if echo "$out" | grep -q "PATCH-DOES-NOT-APPLY"; then echo "$id DOES-NOT-APPLY";
   elif echo "$out" | grep -q "^VIOLATION property=$prop"; then echo "$id CAUGHT $(echo "$out" | grep -m1 'key=' | sed 's/^ *//')";
   elif echo "$out" | grep -q "INCONCLUSIVE\|BUILD-ERROR"; then echo "$id INCONCLUSIVE $(echo "$out" | grep -m1 'INCONCLUSIVE\|BUILD-ERROR' | cut -c1-160)";
